@@ -12,6 +12,7 @@
   Y0/Spec/CtfSpec.lean.  `g.WF` is what `NxMixedGraph.from_edges` guarantees (`MG.wf_fromEdges`).
 -/
 import Y0.Lemmas.Ctf
+import Y0.Lemmas.CtfScm
 
 namespace Y0.Ctf
 open Relation Y0.MG
@@ -149,6 +150,41 @@ theorem minimize_idem (g : MG Name) (hg : g.WF) (v w : Var) (hv : v.name ∈ g.n
     cases w
     simp only [Var.mk.injEq, true_and, and_true]
     exact hiv.symm
+
+/-- **same random variable.**  In every functional SCM compatible with the graph, under every reading of the value
+symbols, the minimised variable `‖Y_x‖ = Y_t` and `Y_x` take the same value at every noise point: a subscript that is
+not an ancestor of `Y` in `G_{\overline X}` cannot influence `Y` once the rest of `x` is fixed.  (Induction along the
+evaluation order over the set `An(Y)_{G_{\overline X}}`, `solve_agree`.) -/
+theorem minimize_same_rv (g : MG Name) (v w : Var) (h : minimize g v = .ok w)
+    (M : Fscm.Model) (hM : Fscm.Compatible M g) (ν : Fscm.BaseValues) :
+    Fscm.SameRV M v.name (Fscm.worldOf ν v.ivs) w.name (Fscm.worldOf ν w.ivs) := by
+  rcases minimize_eq g v w h with ⟨_, rfl⟩ | ⟨_, A, hA, rfl⟩
+  · intro u; rfl
+  · intro u
+    simp only
+    -- the filter only looks at the name of an intervention
+    let q : Name → Bool := fun a => decide (a ∈ (ivNames v).filter (fun x => decide (x ∈ A)))
+    have hq : ∀ a, q a = true ↔ a ∈ subNames v ∧ AncBar g (subNames v) v.name a := by
+      intro a
+      simp only [q, decide_eq_true_eq, List.mem_filter, mem_ivNames]
+      rw [mem_anc_removeIn g _ _ _ hA, ancBar_congr g (ivNames v) (subNames v) (mem_ivNames v)]
+    apply solve_agree M u _ _ (AncBar g (subNames v) v.name)
+    · intro a ha
+      by_cases hax : a ∈ subNames v
+      · exact (forced_worldOf_filter ν v.ivs q a ((hq a).2 ⟨hax, ha⟩)).symm
+      · rw [forced_worldOf_none ν v.ivs a hax, forced_worldOf_none]
+        intro hmem
+        obtain ⟨i, hi, rfl⟩ := List.mem_map.1 hmem
+        exact hax (List.mem_map.2 ⟨i, (List.mem_filter.1 hi).1, rfl⟩)
+    · intro a ha hnone p hp
+      have hax : a ∉ subNames v := by
+        intro hmem
+        obtain ⟨x, hx⟩ := forced_worldOf_mem ν v.ivs a hmem
+        rw [hx] at hnone; cases hnone
+      exact ReflTransGen.head ⟨hM.pa_sub a p hp, hax⟩ ha
+    · exact hM.nodup
+    · exact hM.topo
+    · exact ReflTransGen.refl
 
 /-! ## 2. ancestors of a counterfactual variable (Def. 2.1) -/
 
@@ -362,5 +398,36 @@ theorem convertOne_factorForm (g : MG Name) (v w : Var) (hloop : ¬ g.DiEdge v.n
   refine ⟨fun p hp => (hex p).2 hp, fun hself => ?_⟩
   rw [hn] at hself
   exact hloop (by simpa [hn] using (hex v.name).1 hself)
+
+/-! ## non-vacuity: Figure 2a of Correa, Lee, Bareinboim 2022 (X=0, Y=1, W=2, Z=3) and the F8 witnesses -/
+
+def fig2a : MG Name := MG.fromEdges [] [(3, 0), (3, 1), (0, 1), (0, 2), (2, 1)] [(3, 0), (2, 1)]
+def iv (n : Name) : Iv := ⟨n, false⟩
+
+example : fig2a.WF := wf_fromEdges _ _ _
+-- ‖Y_{w,x,z}‖ keeps everything, ‖W_{y,z}‖ = W_z  (test_minimize_*), ‖Y_{w,y}‖ = Y_y
+example : minimize fig2a { name := 1, ivs := [iv 0, iv 2, iv 3] } = .ok { name := 1, ivs := [iv 0, iv 2, iv 3] } := by decide
+example : minimize fig2a { name := 2, ivs := [iv 1, iv 3] } = .ok { name := 2, ivs := [iv 3] } := by decide
+example : minimize fig2a { name := 1, ivs := [iv 1, iv 2] } = .ok { name := 1, ivs := [iv 1] } := by decide
+-- F8a witness: A -> B plus isolated C; ‖B_c‖ = B (was a ValueError)
+example : minimize (MG.fromEdges [2] [(0, 1)] []) { name := 1, ivs := [iv 2] } = .ok { name := 1 } := by decide
+-- Example 2.1: An(Y_x) = {Y_x, W_x, Z}, An(W_{yz}) = {W_z, X_z}, An(Y_w) = {Y_w, X, Z}
+example : ctfAncestors fig2a { name := 1, ivs := [iv 0] } =
+    .ok [{ name := 1, ivs := [iv 0] }, { name := 3 }, { name := 2, ivs := [iv 0] }] := by decide
+example : ctfAncestors fig2a { name := 2, ivs := [iv 1, iv 3] } =
+    .ok [{ name := 2, ivs := [iv 3] }, { name := 0, ivs := [iv 3] }] := by decide
+example : ctfAncestors fig2a { name := 1, ivs := [iv 2] } =
+    .ok [{ name := 1, ivs := [iv 2] }, { name := 3 }, { name := 0 }] := by decide
+-- Example 4.2: ctf-factor form of Y_x is Y_{xwz}
+example : convertOne fig2a { name := 1, ivs := [iv 0] } = .ok { name := 1, ivs := [iv 0, iv 2, iv 3] } := by decide
+example : isCtfFactorForm fig2a [{ name := 1, ivs := [iv 0, iv 2, iv 3] }, { name := 2, ivs := [iv 0] },
+    { name := 0, ivs := [iv 3] }, { name := 3 }] = .ok true := by decide
+example : isCtfFactorForm fig2a [{ name := 1, ivs := [iv 0] }] = .ok false := by decide
+-- F8b witness: A <-> C, B <-> C with C outside the sets: {A} and {B} stay apart (were merged)
+example : componentsFromSets (MG.fromEdges [] [] [(0, 2), (1, 2)]) [[{ name := 0 }], [{ name := 1 }]] =
+    [[{ name := 0 }], [{ name := 1 }]] := by decide
+-- and a bidirected edge between members does merge
+example : componentsFromSets (MG.fromEdges [] [] [(0, 1)]) [[{ name := 0 }], [{ name := 1 }]] =
+    [[{ name := 0 }, { name := 1 }]] := by decide
 
 end Y0.Ctf
